@@ -458,3 +458,18 @@ Section DenseAlg.
     Qed.
   End Inv.
 End DenseAlg.
+
+Lemma blocks_inverse :
+  forall (T : Type) (zero one : T) (add mul sub : T -> T -> T) (opp : T -> T),
+    ring_theory zero one add mul sub opp eq ->
+  forall (inv : list (list T) -> list (list T)) (Bs : list (list (list T))),
+    Forall (square T) Bs -> Forall (inv_ok T zero one add mul inv) Bs ->
+    mat_mul zero add mul (total T Bs) (block_diag zero Bs) (block_diag zero (map inv Bs))
+      = identity zero one (total T Bs) /\
+    mat_mul zero add mul (total T Bs) (block_diag zero (map inv Bs)) (block_diag zero Bs)
+      = identity zero one (total T Bs).
+Proof.
+  intros T zero one add mul sub opp Rth inv Bs S H. split.
+  - exact (blocks_inverse_r T zero one add mul sub opp Rth inv Bs S H).
+  - exact (blocks_inverse_l T zero one add mul sub opp Rth inv Bs S H).
+Qed.
